@@ -54,6 +54,9 @@ def clean(m):
     return "\n".join(out)
 msgs = [clean(m) for m in msgs]
 print(f"{len(patches)} patches, {len(msgs)} fix: messages")
+nums = [int(re.search(r"-(\d+)-", os.path.basename(p)).group(1)) for p in patches]
+if len(msgs) > len(patches) and max(nums) == len(msgs):
+    msgs = [msgs[k - 1] for k in nums]      # messages are numbered like the patches (some already applied elsewhere)
 for n, p in enumerate(patches):
     m = msgs[n] if n < len(msgs) else None
     print("----", os.path.basename(p)); print(m)
